@@ -153,9 +153,16 @@ _CSTATE_TB = [
 _CSTATE_MOD = ["std::collections::VecDeque / Vec / HashMap semantics, Vec::sort_by_key (stable)", "fixedbitset 0.5.7 (insert panics out of bounds, contains returns false) — tied by the correspondence incl. an out-of-range pubrel case",
                "tokio / flume / the real EventLoop (poll, reconnect, timers, channel): NOT exercised by this sub-command — cloop slice"]
 
+# the event-loop clause of each of these properties is judged on the real EventLoop by `vh cloop
+# --profile loop` (scripted sessions x every cut position); only the monitor tags of that clause count
+_LOOP_TAGS = {"C02": "^(loop-lost|harness-nondeterministic|impl-panic)$", "C07": "^(loop-gate|harness-nondeterministic|impl-panic)$",
+              "C10": "^(loop-batch-order|harness-nondeterministic|impl-panic)$", "C11": "^(loop-order|loop-nosession|harness-nondeterministic|impl-panic)$"}
+
 def _cstate(pid, extra_assume):
     return {
-        "runs": [{"vh": "cstate", "driver": "cstate-" + pid, "args": ["--focus", pid], "selftest": True, "shards_thorough": 8}],
+        "runs": [{"vh": "cstate", "driver": "cstate-" + pid, "args": ["--focus", pid], "selftest": True, "shards_thorough": 8},
+                 {"vh": "cloop", "driver": "cloop", "args": ["--profile", "loop"], "only_tags": _LOOP_TAGS[pid]}],
+        "lean_extra_targets": ["Proofs.Props.CLoop"],
         "exhaustive_scope": True,
         "trusted_base": _CSTATE_TB,
         "modelled": _CSTATE_MOD,
